@@ -109,3 +109,46 @@ Fixpoint auto_pids (s : mstate) (ops : list mop) : list Z :=
 
 (* 0x1EFE: the PIDs of [startPID, 0x1FFE] without pmtStartPID *)
 Definition max_adds : Z := 7934.
+
+(* ---------------- table emissions over a run (C17) ---------------- *)
+
+(* the content of the PMT changes with a successful addition or removal and with every SetPCRPID *)
+Definition content_change (o : mop) (p : part) : bool :=
+  match o with
+  | MAdd _ | MRemove _ => is_ok (pa_res p)
+  | MSetPCR _ => true
+  | _ => false
+  end.
+
+(* the emissions of a run: for each call whose packets start with PAT;PMT, whether the content changed since the
+   previous emission, and the version counters right after it (what VerifState reports; C17_content ties them to
+   the sections emitted) *)
+Fixpoint emissions (s : mstate) (ops : list mop) (changed : bool) : list (bool * Z * Z) :=
+  match ops with
+  | [] => []
+  | o :: r =>
+      let s' := fst (mux_step_part s o) in
+      let p := snd (mux_step_part s o) in
+      let ch := changed || content_change o p in
+      if starts_with_tables (muxer_pkts o p)
+      then (ch, wrappingCounter_value (ms_pat_version s'), wrappingCounter_value (ms_pmt_version s')) :: emissions s' r false
+      else emissions s' r ch
+  end.
+
+(* between consecutive emissions the PAT version stays and the PMT version steps by one modulo 32 iff the content changed *)
+Fixpoint version_rule (l : list (bool * Z * Z)) : Prop :=
+  match l with
+  | (_, pat1, pmt1) :: (((ch, pat2, pmt2) :: _) as r) =>
+      pat2 = pat1 /\ pmt2 = (if ch then (pmt1 + 1) mod 32 else pmt1) /\ version_rule r
+  | _ => True
+  end.
+
+(* the first call of a run that emits anything of the Muxer's own making starts with PAT;PMT *)
+Fixpoint tables_first (evs : list (mop * part)) : Prop :=
+  match evs with
+  | [] => True
+  | (o, p) :: r => match muxer_pkts o p with
+                   | [] => tables_first r
+                   | pkts => starts_with_tables pkts = true
+                   end
+  end.
